@@ -21,19 +21,20 @@ def argmax_sites(tree):
     return [n for n in ast.walk(tree) if isinstance(n, ast.Call) and call_name(n) in ("np.argmax", "numpy.argmax") and n.args and isinstance(n.args[0], ast.Compare)]
 
 
-def run(ctx):
+def twin_operations(ctx, clause):
+    """samples and their density rows are sorted by one argsort and inserted at the same positions (shared with C03.4:
+    a density row that is detached from its sample is also a wrong stored density)."""
     prog = ctx.prog
     c = prog.cls(OS_)
     m = {k: v for k, v in c.methods.items()}
-
     # ---- C04.1 twin operations on samples / log_q --------------------------------
     ss = m["sort_samples"]
     ok = len(find_stmt("$$i = argsort(samples, order='logL')", ss.node)) == 1 and len(find_stmt("return get_subset_arrays($$i, samples, *args)", ss.node)) == 1 and len(find_stmt("return samples[$$i]", ss.node)) == 1
-    ctx.ob("R-PAIR", "C04.1", ss, "sorting applies one argsort (by logL) to the samples and to every companion array", ok, "")
+    ctx.ob("R-PAIR", clause, ss, "sorting applies one argsort (by logL) to the samples and to every companion array", ok, "")
     gs = ctx.fn("nessai.utils.structures:get_subset_arrays")
-    ctx.ob("R-PAIR", "C04.1", gs, "get_subset_arrays indexes every array with the same index object", len(find_stmt("return tuple($$a[indices] for $$a in args)", gs.node)) == 1, "")
+    ctx.ob("R-PAIR", clause, gs, "get_subset_arrays indexes every array with the same index object", len(find_stmt("return tuple($$a[indices] for $$a in args)", gs.node)) == 1, "")
     ai = m["add_initial_samples"]
-    ctx.ob("R-PAIR", "C04.1", ai, "initial insertion stores the jointly sorted samples and density rows", len(find_stmt("self.samples, self.log_q = self.sort_samples(samples, log_q)", ai.node)) == 1 and len(find_stmt("self.live_points_indices = arange(self.samples.size, dtype=int)", ai.node)) == 1, "")
+    ctx.ob("R-PAIR", clause, ai, "initial insertion stores the jointly sorted samples and density rows", len(find_stmt("self.samples, self.log_q = self.sort_samples(samples, log_q)", ai.node)) == 1 and len(find_stmt("self.live_points_indices = arange(self.samples.size, dtype=int)", ai.node)) == 1, "")
     ad = m["add_samples"]
     aa = FA(ad)
     srt = find_stmt("samples, log_q = self.sort_samples(samples, log_q)", ad.node)
@@ -41,10 +42,19 @@ def run(ctx):
     ins_s = find_stmt("self.samples = insert(self.samples, $$i, samples)", ad.node)
     ins_q = find_stmt("self.log_q = insert(self.log_q, $$i, log_q, axis=0)", ad.node)
     okp = len(srt) == 1 and len(idx) == 1 and len(ins_s) == 1 and len(ins_q) == 1 and src(idx[0][1]["i"]) == src(ins_s[0][1]["i"]) == src(ins_q[0][1]["i"])
-    ctx.ob("R-PAIR", "C04.1", ad, "batch insertion: the new batch is sorted jointly, positions come from one searchsorted on logL, and samples and density rows are inserted at the same positions (rows along axis 0)", okp, "")
+    ctx.ob("R-PAIR", clause, ad, "batch insertion: the new batch is sorted jointly, positions come from one searchsorted on logL, and samples and density rows are inserted at the same positions (rows along axis 0)", okp, "")
     if okp:
         ids = [aa.cfg.id_of(x[0][0]) for x in (srt, idx, ins_s, ins_q)]
-        ctx.ob("R-ORDER", "C04.1", ad, "sort -> searchsorted (against the store before insertion) -> insert samples -> insert rows, each once on every path", all(aa.dominates(ids[i], ids[i + 1]) for i in range(3)) and all(aa.on_every_normal_path(i) and aa.once(i) for i in ids), "")
+        ctx.ob("R-ORDER", clause, ad, "sort -> searchsorted (against the store before insertion) -> insert samples -> insert rows, each once on every path", all(aa.dominates(ids[i], ids[i + 1]) for i in range(3)) and all(aa.on_every_normal_path(i) and aa.once(i) for i in ids), "")
+    return ad, aa, idx, ins_s, ins_q, gs
+
+
+def run(ctx):
+    prog = ctx.prog
+    c = prog.cls(OS_)
+    m = {k: v for k, v in c.methods.items()}
+
+    ad, aa, idx, ins_s, ins_q, gs = twin_operations(ctx, "C04.1")
     fns = [f for f in prog.all_functions if f.cls is c]
 
     def ob_pair(f, node, okk, detail):
